@@ -2,6 +2,10 @@
   Driver — line protocol between ./check and the executable Lean model.
   One JSON request per line on stdin, one JSON answer per line on stdout.
   Imports the model (core Lean only) plus `Lean.Data.Json`, so it links as a `lean_exe`.
+
+  ops:  check (default)  case + impl  → correspondence and per-property verdicts
+        prune            case         → the document with every excluded entry deleted (C06)
+        eqmod            a, b         → equality of two output bundles up to blank lines
 -/
 import Lean.Data.Json
 import Slinkyv
@@ -10,10 +14,10 @@ open Lean Slinky
 def s2t (s : String) : Str := s.toList
 def t2s (t : Str) : String := String.ofList t
 
-/-- protocol tree → canonical YAML tree. Objects are `{"$m": [[k, v], …]}` (ordered, may
-repeat keys) or plain JSON objects; floats are `{"$f": "text"}`. -/
 instance : Inhabited Y := ⟨.null⟩
 
+/-- protocol tree → canonical YAML tree. Objects are `{"$m": [[k, v], …]}` (ordered, may
+repeat keys) or plain JSON objects; floats are `{"$f": "text"}`. -/
 partial def toY (j : Json) : Y :=
   match j with
   | .null => .null
@@ -33,8 +37,19 @@ partial def toY (j : Json) : Y :=
       | some (.str f) => .float (s2t f)
       | _ => .map (o.toList.map fun (k, v) => (s2t k, toY v))
 
+partial def ofY (y : Y) : Json :=
+  match y with
+  | .null => .null
+  | .bool b => .bool b
+  | .int i => .num ⟨i, 0⟩
+  | .float r => Json.mkObj [("$f", .str (t2s r))]
+  | .str s => .str (t2s s)
+  | .seq l => .arr (l.map ofY).toArray
+  | .map m => Json.mkObj [("$m", .arr (m.map fun (k, v) => Json.arr #[.str (t2s k), ofY v]).toArray)]
+
 def getStr (j : Json) (k : String) : String := (j.getObjValAs? String k).toOption.getD ""
 def getBool (j : Json) (k : String) (d : Bool) : Bool := (j.getObjValAs? Bool k).toOption.getD d
+def getObj (j : Json) (k : String) : Json := (j.getObjVal? k).toOption.getD .null
 
 def getOpts (j : Json) : Opts :=
   match j.getObjVal? "opts" with
@@ -42,6 +57,11 @@ def getOpts (j : Json) : Opts :=
       match p with
       | .arr #[.str k, .str v] => some (s2t k, s2t v)
       | _ => none
+  | _ => []
+
+def getStrList (j : Json) (k : String) : List String :=
+  match j.getObjVal? k with
+  | .ok (.arr a) => a.toList.filterMap fun x => match x with | .str s => some s | _ => none
   | _ => []
 
 def errName : ErrKind → String
@@ -61,15 +81,54 @@ def errName : ErrKind → String
 def jstr (t : Str) : Json := .str (t2s t)
 def jb (b : Bool) : Json := .bool b
 def js (s : String) : Json := .str s
+def jstrs (l : List Str) : Json := .arr (l.map jstr).toArray
 
-def handle (req : Json) : Json :=
-  let c := (req.getObjVal? "case").toOption.getD .null
-  let impl := (req.getObjVal? "impl").toOption.getD .null
-  let id := (c.getObjVal? "id").toOption.getD .null
-  let y := toY ((c.getObjVal? "doc").toOption.getD .null)
+/-- the implementation's observation, from the harness answer. -/
+def obsOfImpl (impl : Json) : Obs :=
+  let deps : Option Str := match impl.getObjVal? "deps" with
+    | .ok (.str s) => some (s2t s)
+    | _ => none
+  let syms : List Str := (getStrList impl "symbols").map s2t
+  let partials : List (Str × Str) := match impl.getObjVal? "partials" with
+    | .ok (.arr a) => a.toList.filterMap fun x => match x with
+        | .arr #[.str n, .str s] => some (s2t n, s2t s) | _ => none
+    | _ => []
+  Obs.ofTexts (s2t (getStr impl "script")) (s2t (getStr impl "joined")) (s2t (getStr impl "header"))
+    deps syms partials
+
+def firstDiff (a b : List Str) : String :=
+  let rec go (i : Nat) : List Str → List Str → String
+    | [], [] => ""
+    | x :: xs, y :: ys => if x = y then go (i + 1) xs ys else s!"@{i}: impl `{t2s x}` vs model `{t2s y}`"
+    | x :: _, [] => s!"@{i}: impl `{t2s x}` vs model <end>"
+    | [], y :: _ => s!"@{i}: impl <end> vs model `{t2s y}`"
+  go 0 a b
+
+def verdictJson (v : Verdict) : Json :=
+  Json.mkObj [("holds_impl", jb v.holdsImpl), ("holds_model", jb v.holdsModel),
+    ("proj_equal", jb v.projEqual), ("domain", jb v.domain), ("why", js v.why)]
+
+def projVerdict (holdsI holdsM : Bool) (pi pm : List Str) (domain : Bool := true) : Verdict :=
+  { holdsImpl := holdsI, holdsModel := holdsM, projEqual := pi == pm, domain := domain,
+    why := if pi == pm then "" else firstDiff pi pm }
+
+/-- per-property verdicts for a successful generation on both sides. -/
+def evalProp (p : String) (d : Document) (o : Opts) (oi om : Obs) : Option Verdict :=
+  match p with
+  | "C06" => some (projVerdict true true (C06m.proj oi) (C06m.proj om))
+  | "C12" => some (projVerdict (C12.holds d o oi) (C12.holds d o om) (C12.proj oi) (C12.proj om))
+  | "C13" => some (projVerdict (C13.holds d oi) (C13.holds d om) (C13.proj oi) (C13.proj om))
+  | _ => none
+
+def handleCheck (req : Json) : Json :=
+  let c := getObj req "case"
+  let impl := getObj req "impl"
+  let id := getObj c "id"
+  let y := toY (getObj c "doc")
   let opts := getOpts c
   let mode : Mode := if getStr c "mode" == "partial" then .partialLink else .normal
   let vc := getBool c "version_comment" false
+  let want := getStrList c "want"
   let base : List (String × Json) := [("id", id)]
   let implOutcome := getStr impl "outcome"
   match parseDocument y with
@@ -86,32 +145,112 @@ def handle (req : Json) : Json :=
     | .error .diverge =>
       Json.mkObj (base ++ [("model_outcome", js "diverge"), ("outcome_agree", jb false)])
     | .ok out =>
-      let iScript := s2t (getStr impl "script")
-      let iJoined := s2t (getStr impl "joined")
-      let iHeader := s2t (getStr impl "header")
-      let iDeps : Option Str := match impl.getObjVal? "deps" with
-        | .ok (.str s) => some (s2t s)
-        | _ => none
-      let iSyms : List Str := match impl.getObjVal? "symbols" with
-        | .ok (.arr a) => a.toList.filterMap fun x => match x with | .str s => some (s2t s) | _ => none
-        | _ => []
-      let iPartials : List (Str × Str) := match impl.getObjVal? "partials" with
-        | .ok (.arr a) => a.toList.filterMap fun x => match x with
-            | .arr #[.str n, .str s] => some (s2t n, s2t s) | _ => none
-        | _ => []
+      let oi := obsOfImpl impl
+      let om := Obs.ofOutputs out
       let agree : List (String × Bool) :=
-        [("script", out.script == iScript), ("joined", out.joined == iJoined),
-         ("header", out.header == iHeader), ("deps", out.deps == iDeps),
-         ("symbols", out.symbols == iSyms), ("partials", out.partials == iPartials)]
+        [("script", out.script == oi.script), ("joined", out.joined == oi.joined),
+         ("header", out.header == oi.header), ("deps", out.deps == oi.deps),
+         ("symbols", out.symbols == oi.symbols), ("partials", out.partials == oi.partials)]
       let all := implOutcome == "ok" && agree.all (·.2)
+      let props : List (String × Json) :=
+        if implOutcome == "ok" then
+          want.filterMap fun p => (evalProp p d opts oi om).map fun v => (p, verdictJson v)
+        else []
       Json.mkObj (base ++ [("model_outcome", js "ok"), ("outcome_agree", jb (implOutcome == "ok")),
         ("full_equal", jb all),
-        ("agree", Json.mkObj (agree.map fun (k, b) => (k, Json.bool b)))]
+        ("agree", Json.mkObj (agree.map fun (k, b) => (k, Json.bool b))),
+        ("props", Json.mkObj props)]
         ++ (if all then [] else
              [("model", Json.mkObj [("script", jstr out.script), ("header", jstr out.header),
                ("deps", match out.deps with | some d => jstr d | none => .null),
-               ("symbols", Json.arr (out.symbols.map jstr).toArray),
+               ("symbols", jstrs out.symbols),
                ("partials", Json.arr (out.partials.map fun (n, s) => Json.arr #[jstr n, jstr s]).toArray)])]))
+
+def handlePrune (req : Json) : Json :=
+  let c := getObj req "case"
+  let y := toY (getObj c "doc")
+  Json.mkObj [("id", getObj c "id"), ("doc", ofY (C06.pruneDocY (getOpts c) y))]
+
+/-- `a` and `b` are harness answers; all outputs equal up to blank lines (and equal outcome). -/
+def handleEqmod (req : Json) : Json :=
+  let a := getObj req "a"
+  let b := getObj req "b"
+  let oa := getStr a "outcome"
+  let ob := getStr b "outcome"
+  if oa != ob then Json.mkObj [("equal", jb false), ("why", js s!"outcome {oa} vs {ob}")]
+  else if oa != "ok" then Json.mkObj [("equal", jb true), ("why", js "")]
+  else
+    let x := obsOfImpl a
+    let y := obsOfImpl b
+    let chk : List (String × Bool) :=
+      [("script", C06.eqModBlank x.script y.script), ("header", C06.eqModBlank x.header y.header),
+       ("deps", match x.deps, y.deps with
+          | some p, some q => C06.eqModBlank p q
+          | none, none => true
+          | _, _ => false),
+       ("symbols", x.symbols == y.symbols),
+       ("partials", x.partials.length == y.partials.length &&
+          (x.partials.zip y.partials).all fun (p, q) => p.1 == q.1 && C06.eqModBlank p.2 q.2)]
+    let bad := chk.filter (fun kv => !kv.2)
+    Json.mkObj [("equal", jb bad.isEmpty), ("why", js (String.intercalate "," (bad.map (·.1))))]
+
+def sortFs (fs : List (String × String)) : List (String × String) :=
+  (fs.toArray.qsort (fun a b => a.1 < b.1)).toList
+
+/-- `files` op: the file exports over a scratch directory. -/
+def handleFiles (req : Json) : Json :=
+  let c := getObj req "case"
+  let impl := getObj req "impl"
+  let y := toY (getObj c "doc")
+  let opts := getOpts c
+  let mode : Mode := if getStr c "mode" == "partial" then .partialLink else .normal
+  let vc := getBool c "version_comment" false
+  let out : Option Str := match c.getObjVal? "out" with
+    | .ok (.str s) => some (s2t s)
+    | _ => none
+  let pre : Fs := match c.getObjVal? "pre" with
+    | .ok (.arr a) => a.toList.filterMap fun x => match x with
+        | .arr #[.str p, .str ct] => some (normPath (s2t p), s2t ct) | _ => none
+    | _ => []
+  let implOutcome := getStr impl "outcome"
+  let implFiles : List (String × String) := match impl.getObjVal? "files" with
+    | .ok (.obj o) => o.toList.filterMap fun (k, v) => match v with | .str s => some (k, s) | _ => none
+    | _ => []
+  let implStdout : Option String := match impl.getObjVal? "stdout" with
+    | .ok (.str s) => some s
+    | _ => none
+  let base : List (String × Json) := [("id", getObj c "id")]
+  match parseDocument y with
+  | .error e => Json.mkObj (base ++ [("model_outcome", js "err"), ("model_err", js (errName e)),
+      ("outcome_agree", jb (implOutcome == "err"))])
+  | .ok d =>
+    match fileRun d opts mode vc out pre with
+    | .error (.err e) => Json.mkObj (base ++ [("model_outcome", js "err"), ("model_err", js (errName e)),
+        ("outcome_agree", jb (implOutcome == "err"))])
+    | .error .diverge => Json.mkObj (base ++ [("model_outcome", js "diverge"), ("outcome_agree", jb false)])
+    | .ok r =>
+      let mf := sortFs (r.fs.map fun (p, ct) => (t2s p, t2s ct))
+      let imf := sortFs implFiles
+      let filesEq := mf == imf
+      let stdoutEq := (r.stdout.map t2s) == implStdout
+      let diff : String :=
+        if filesEq then "" else
+          let mp := mf.map (·.1)
+          let ip := imf.map (·.1)
+          if mp != ip then s!"paths differ: impl {ip} vs model {mp}"
+          else match (mf.zip imf).find? (fun (a, b) => a != b) with
+            | some (a, _) => s!"content of {a.1} differs"
+            | none => ""
+      Json.mkObj (base ++ [("model_outcome", js "ok"), ("outcome_agree", jb (implOutcome == "ok")),
+        ("files_equal", jb filesEq), ("stdout_equal", jb stdoutEq), ("diff", js diff),
+        ("model_paths", Json.arr (mf.map fun x => js x.1).toArray)])
+
+def handle (req : Json) : Json :=
+  match getStr req "op" with
+  | "prune" => handlePrune req
+  | "eqmod" => handleEqmod req
+  | "files" => handleFiles req
+  | _ => handleCheck req
 
 partial def loop (h : IO.FS.Stream) (out : IO.FS.Stream) : IO Unit := do
   let line ← h.getLine
